@@ -9,7 +9,16 @@ ENV = ['vlibc.c']
 
 def instances(tier):
     n = 2 if tier == 'quick' else 3
-    return [{'entry': e, 'params': [n], 'bound': 'every history of %d copy/assign/drop operations on three handles (%s)' % (n, e[2:])} for e in ('h_array', 'h_map', 'h_hashmap', 'h_shared')]
+    out = [{'entry': e, 'params': [n], 'bound': 'every history of %d copy/assign/drop operations on three handles (%s)' % (n, e[2:])} for e in ('h_array', 'h_map', 'h_hashmap', 'h_shared')]
+    # concurrent handle protocols on the thread model (engine/threads_sym.py)
+    for e in ('h_conc_array', 'h_conc_map', 'h_conc_hashmap', 'h_conc_shared'):
+        for nt, B in (((2, 2),) if tier == 'quick' else ((2, 3), (3, 2))):
+            for prog in (0, 1, 2):
+                if e == 'h_conc_hashmap' and (tier == 'quick' or nt == 3) and prog != 2 and B > 1: B_ = 1
+                else: B_ = B
+                out.append({'entry': e, 'params': [B_, nt, prog], 'bound': '%d threads each %s its own handle to the same %s payload; every interleaving of the visible operations with at most %d preemptions'
+                            % (nt, ('dropping', 'copying and dropping', 'reassigning')[prog], e[7:], B_)})
+    return out
 
 
 # interleaving scenarios: (threads, getter, initial, deltas)
